@@ -9,6 +9,10 @@ package main
 //                        must be what they were when the commit was created, unless one of the
 //                        commit's objects was explicitly vacuumed; data object files never change;
 //                        a new commit shows what its branch shows; the same through the Lean model.
+//   writers (S)          two handles load to the same branch under every schedule "A runs k scheduled
+//                        storage calls, B runs its whole load, A finishes" (cooperative scheduling
+//                        storage engine of hlib): both acknowledged loads must be visible to every
+//                        later query (both warm handles, a fresh one) and on main's parent chain.
 //   reader (S)           a query is started (commit resolved at compile time) and pulled batch by
 //                        batch while another handle commits loads / deletes / compactions /
 //                        delete-wheres / reverts to the same branch; the reader must return exactly
@@ -30,10 +34,13 @@ func run(c *hlib.Ctx) {
 	guarded := lakeh.Profile{Name: "c13", W: w, MaxOps: 12, Guarded: true, Plain: true, NoEmptyBranch: true}
 	if c.Want("histories") {
 		lakeh.RunPlan(c, lakeh.Plan{
-			Opt:      lakeh.Options{Prop: "C13", Commits: true, StopOnFail: true},
+			Opt:      lakeh.Options{Prop: "C13", Commits: true, StopOnFail: true, ColdProbe: true, PruneSnaps: true},
 			Profiles: []lakeh.Profile{guarded},
 			Quick:    50, Thorough: 800,
 		})
+	}
+	if c.Want("writers") && c.Replay == nil {
+		lakeh.RunWriters(c, 60)
 	}
 	if c.Want("reader") && c.Replay == nil {
 		lakeh.RunReaders(c, c.N(30, 400))
